@@ -30,6 +30,26 @@ CANON = "snaxc/transforms/pipeline/pipeline_canonicalize_for.py"
 REUSE = "snaxc/transforms/reuse_memref_allocs.py"
 
 
+def _ge0_on(path_tmpl: str, **binds: str):
+    """guard: a fact `<e> >= 0` (or `0 <= e`, `e > -1`) where e mentions the given access path"""
+    t = T(path_tmpl)
+
+    def test(site: Site):
+        for f in site.facts:
+            c = f.expr if f.kind == "atom" else None
+            if not (isinstance(c, ast.Compare) and len(c.ops) == 1):
+                continue
+            l, o, r = c.left, c.ops[0], c.comparators[0]
+            zero = lambda x: isinstance(x, ast.Constant) and x.value == 0 and type(x.value) is int
+            m1 = lambda x: (isinstance(x, ast.Constant) and x.value == -1) or (isinstance(x, ast.UnaryOp) and isinstance(x.op, ast.USub) and isinstance(x.operand, ast.Constant) and x.operand.value == 1)
+            if (isinstance(o, ast.GtE) and zero(r) and norm.find(t, l, binds)) or (isinstance(o, ast.LtE) and zero(l) and norm.find(t, r, binds)) \
+                    or (isinstance(o, ast.Gt) and m1(r) and norm.find(t, l, binds)):
+                return f
+        return None
+
+    return test
+
+
 def _cmp_on(path_tmpl: str, rel: str, const: int, **binds: str):
     """guard: a fact `<e> <rel> <const>` where e mentions the given access path.  For `== 0` the
     spelling `not e` together with `e is not None` is accepted as well."""
@@ -262,7 +282,7 @@ def merge_for_loops(repo: Repo, chk: Check) -> None:
     sites = mutation_sites(fl, rw)
     chk.rule(
         "C17.merge-guards",
-        "MergeForLoops mutates only under: parent is scf.ForOp; both lower bounds 0; both steps 1",
+        "MergeForLoops mutates only under: parent is scf.ForOp; both lower bounds 0; both steps 1; both upper bounds non-negative",
         floor=8,
     )
     parent = "$op.parent_op()"
@@ -278,6 +298,9 @@ def merge_for_loops(repo: Repo, chk: Check) -> None:
             ("step==1", _cmp_on("$op.step", "==", 1, op=op)),
             ("parent-lb==0", _cmp_on(parent + ".lb", "==", 0, op=op)),
             ("parent-step==1", _cmp_on(parent + ".step", "==", 1, op=op)),
+            # the merged trip count is the PRODUCT of the two upper bounds: a negative bound means no iteration, the product of two of them means some
+            ("ub>=0", _ge0_on("$op.ub", op=op)),
+            ("parent-ub>=0", _ge0_on(parent + ".ub", op=op)),
         ],
     )
     chk.rule("C17.merge-values", "new ub = ub * ub_parent; outer iv = k divui ub_inner; inner iv = k remui ub_inner (same constant)", floor=3)
